@@ -24,8 +24,8 @@ def C(i=1):
     return ["const", ["sym", f"c{i}"]]
 
 
-NS_POWER = {"quick": [1, 2, 3, 5], "thorough": [1, 2, 3, 4, 5, 6]}
-NS_ROOT = {"quick": [1, 2, 3, 4, 5], "thorough": [1, 2, 3, 4, 5, 6, 7]}
+NS_POWER = {"quick": [1, 2, 3, 5, 8], "thorough": [1, 2, 3, 4, 5, 6, 8, 9]}
+NS_ROOT = {"quick": [1, 2, 3, 4, 5, 8, 9], "thorough": [1, 2, 3, 4, 5, 6, 7, 8, 9, 12, 16]}
 BASES_EXP = {"quick": [None, 2, 0.5, 1], "thorough": [None, 2, 0.5, 1, 10, 2.5]}
 BASES_LOG = {"quick": [None, 2, 0.5], "thorough": [None, 2, 0.5, 10, 2.5]}
 
